@@ -211,13 +211,23 @@ func (x *Exec) call(in ssa.Instruction, c *ssa.CallCommon, res ssa.Value) {
 		}
 	}
 	// a closure called where it was made: its free variables are nameable too
+	cells := map[string]cellBind{}
 	if mc, ok := c.Value.(*ssa.MakeClosure); ok && callee != nil {
 		for i, fv := range callee.FreeVars {
 			if i < len(mc.Bindings) {
 				pt := deref(fv.Type())
 				l := x.locOf(mc.Bindings[i])
 				if _, taken := binders[fv.Name()]; !taken {
-					binders[fv.Name()] = Val{T: e.load(x.st, l), Sort: e.sortOf(pt), GT: pt}
+					cells[fv.Name()] = cellBind{loc: l, typ: pt}
+				}
+			}
+		}
+	}
+	if callee != nil && len(cells) > 0 {
+		for o, n := range nameAliases(shortName(callee), callee) {
+			if cb, ok := cells[n]; ok {
+				if _, taken := cells[o]; !taken {
+					cells[o] = cb
 				}
 			}
 		}
@@ -272,7 +282,7 @@ func (x *Exec) call(in ssa.Instruction, c *ssa.CallCommon, res ssa.Value) {
 			}
 		}
 	} else {
-		cenv := &Env{x: x, st: x.st, old: x.st, binders: binders, bound: map[string]Val{}, closed: true}
+		cenv := &Env{x: x, st: x.st, old: x.st, binders: binders, bound: map[string]Val{}, closed: true, cells: cells}
 		caps := map[string]bool{}
 		for _, l := range splitList(fc.Opts["capture"]) {
 			caps[l] = true
@@ -312,7 +322,7 @@ func (x *Exec) call(in ssa.Instruction, c *ssa.CallCommon, res ssa.Value) {
 		}
 	}
 	if fc != nil {
-		cenv := &Env{x: x, st: x.st, old: pre, binders: binders, bound: map[string]Val{}, closed: true, results: results, resNames: rnames}
+		cenv := &Env{x: x, st: x.st, old: pre, binders: binders, bound: map[string]Val{}, closed: true, results: results, resNames: rnames, cells: cells}
 		if callee != nil {
 			cenv.resAlias = nameAliases(shortName(callee), callee)
 		}
